@@ -532,6 +532,8 @@ def open_options_case(rng):
         custom = rng.choice(CUSTOMS)
         if custom & 4194304 and rng.random() < 0.7:
             bits = rng.choice([2, 3, 3, 6, 10, 11])       # write access, no create: the valid O_TMPFILE use
+        if custom == O_DIRECTORY and rng.random() < 0.5:
+            bits = 1
         p = special_path(rng, nm)
         if custom & 4194304 and rng.random() < 0.6:
             p = (nm[rng.choice(["dir", "link_dir", "dir", "file"])],)
